@@ -24,7 +24,13 @@ type cliCase struct {
 	ExitCode int            `json:"exit_code"`
 	Shorter  bool           `json:"shorter_err_location"`
 	Cfg      runCfg         `json:"config"`
+	// OddDir is appended to the name of the directory that holds the workspace and the GOPATH:
+	// characters that are legal in directory names but special to format strings, URLs and shells
+	OddDir string `json:"odd_dir,omitempty"`
 }
+
+// space- and colon-free (the output parser splits locations at those), legal on Linux and accepted by the go command
+var oddDirs = []string{"", "", "", "-100%", "-My%20Projects", "-a%sb%d", "-%v", "-%!x(MISSING)", "-ünï", "-a+b=c", "-~t", "-x,y", "-[1]", "-{a}", "-q'r", "-#h"}
 
 func init() {
 	register("C16", prop{
@@ -86,6 +92,7 @@ func drawCLICase(rt *rapid.T) *cliCase {
 	cc.ExitCode = pickInt(rt, "exitCode", []int{1, 1, 0, 2, 3, 42, 125, 255})
 	cc.Shorter = rapid.IntRange(0, 3).Draw(rt, "shorter") != 0
 	cc.Cfg = runCfg{Sel: drawSelection(rt), CheckTests: rapid.Bool().Draw(rt, "checkTests"), CheckGenerated: rapid.Bool().Draw(rt, "checkGenerated")}
+	cc.OddDir = pickT(rt, "oddDir", oddDirs)
 	return cc
 }
 
@@ -95,7 +102,7 @@ func pickInt(rt *rapid.T, label string, xs []int) int {
 
 // cliEnvLayout places the workspace according to the layout and returns (root, cwd, targets, gopath).
 func cliLayout(env *gen.Env, cc *cliCase, id int) (ws *e2e.Workspace, root, cwd string, targets []string, gopath string) {
-	base := filepath.Join(env.Work, fmt.Sprintf("c16-%d", id))
+	base := filepath.Join(env.Work, fmt.Sprintf("c16-%d%s", id, cc.OddDir))
 	os.RemoveAll(base)
 	ws = &e2e.Workspace{Module: cc.WS.Module, Files: append([]e2e.File{}, cc.WS.Files...)}
 	dirs := cc.WS.PackageDirs()
@@ -288,6 +295,9 @@ func checkC16(t core.TB, rec *core.Recorder, env *gen.Env, cc *cliCase) {
 		rec.Sample("nontrivial", 3, map[string]any{"layout": cc.Layout, "cmd": res.Cmd, "cwd": cwd, "lines": len(got), "first_line": firstLoc(got), "exit": res.Exit})
 	}
 	rec.Count("layout:" + cc.Layout)
+	if cc.OddDir != "" {
+		rec.Count("odd-directory-name")
+	}
 	rec.CountN("diagnostic-lines", len(got))
 }
 
